@@ -3,6 +3,7 @@
 # PLACE (optional) lines:  append <file>            -> demo.rs is appended to <file>
 #                          file <dest>              -> demo.rs is copied to <dest>
 #                          modline <file> <text…>   -> <text> is appended to <file>
+#                          inmod <file>             -> demo.rs is inserted before the final `}` of <file>
 #                          cmd <test command…>      -> how to run the demo (default: cargo test -p <crate> --test seeded_demo)
 set -u
 ID=$1; DIR=$2; CRATE=${3:-uplc}
@@ -14,6 +15,7 @@ place() {
         append) cat $DIR/demo.rs >> $W/$a ;;
         file) mkdir -p $(dirname $W/$a); cp $DIR/demo.rs $W/$a ;;
         modline) echo "$rest" >> $W/$a ;;
+        inmod) head -n -1 $W/$a > $W/$a.tmp; cat $DIR/demo.rs >> $W/$a.tmp; echo "}" >> $W/$a.tmp; mv $W/$a.tmp $W/$a ;;
       esac
     done < $DIR/PLACE
   else
